@@ -304,3 +304,26 @@ package fstree
 //@ func (*FSTree).readFullObject
 //@   property C10
 //@   ensures [result_is_what_decompression_returned] err == nil ==> resultOf(res0, "fstree.decompress")
+
+// ---- C10 (head of a compressed object): the decompressed head may be shorter than the head
+// buffer - the object is small although its compressed form is not - and that is the end of the
+// data, not a failure: whichever way the head is read (one Read of the decoder: io.EOF; a read
+// that insists on filling the buffer: io.EOF or io.ErrUnexpectedEOF), reaching the end is
+// success.
+//@ ghost field headReadReachedTheEnd(x int) bool
+//@ callrule c10_head_read_by_the_decoder in (*FSTree).preprocessStreamHead
+//@   property C10
+//@   optional
+//@   callee (*zstd.Decoder).Read
+//@   assigns headReadReachedTheEnd
+//@   defines headReadReachedTheEnd(0) == errIs(res1, io.EOF)
+//@ callrule c10_head_read_in_full in (*FSTree).preprocessStreamHead
+//@   property C10
+//@   optional
+//@   callee io.ReadFull
+//@   assigns headReadReachedTheEnd
+//@   defines headReadReachedTheEnd(0) == (errIs(res1, io.EOF) || errIs(res1, io.ErrUnexpectedEOF))
+//@ func (*FSTree).preprocessStreamHead
+//@   property C10
+//@   valid !headReadReachedTheEnd(0) && io.EOF != nil && io.ErrUnexpectedEOF != nil
+//@   ensures [end_of_the_decompressed_data_is_not_an_error] headReadReachedTheEnd(0) ==> res2 == nil
